@@ -64,6 +64,7 @@ type Opts struct {
 	MaxReplicas        int
 	// FirstCeremonyIn: simulated time from start to the first validation; 0 = far future (no epoch in run)
 	CeremonySoon    bool
+	Rich            bool // funded accounts get a million coins
 	RealEpochDays   bool // ValidationInterval = 0: use the protocol's epoch length (needs large networks)
 	BigNetworkBias  int  // 1-in-N runs draw MaxIdent towards the upper bound
 	Zones           bool // give replicas different time zones
@@ -190,6 +191,9 @@ func New(r *vfw.Run, o Opts) *Scn {
 		bal := []int64{0, 1, 50, 1000, 100000}[t.Choose("cfg.balance", 5)]
 		if i <= 3 && bal < 50 {
 			bal = 1000
+		}
+		if o.Rich && bal > 0 {
+			bal = 1000000 // senders that can afford transactions of a third of a block
 		}
 		stk := []int64{0, 0, 1, 20, 500, 30000}[t.Choose("cfg.stake", 6)]
 		ga := config.GenesisAllocation{State: uint8(st)}
